@@ -120,6 +120,20 @@ theorem service_total_history (tls : Bool) (ops : List SOp) (hq : ∀ op ∈ ops
     (((Server.start tls).run ops).service).2 = none :=
   (service_total _ (run_good loops_catch_oserror.1 loops_catch_oserror.2 ops hq (start_good tls))).1
 
+/-- C10.2 (re-use) when `Server.reopen()` forgets the remoters of the previous opening (flag probed from the code), a server that is
+closed and re-opened — whatever state it was in, connections open or handshaking — is serviceable again: the next
+`service()` does not raise.  (At a tree where the flag is false the remoters closed by `close()` stay in `.ixes` and that service raises
+AttributeError: known finding C10-K4.) -/
+theorem service_after_reopen_total (hflag : Gen.Tcp.reopenClearsIxes = true) (s : Server) :
+    (s.reopen.service).2 = none := by
+  have hg : GoodSrv s.reopen := by
+    refine ⟨rfl, ?_, ?_, fun _ => rfl⟩
+    · intro p hp
+      simp [Server.reopen, Server.reclose, hflag] at hp
+    · intro p hp
+      simp [Server.reopen, Server.reclose, Server.close, hflag] at hp
+  exact (service_total _ hg).1
+
 /-- non-vacuity: two peers, one resets during receive, one breaks the pipe on send -/
 example : (∀ op ∈ [SOp.conn ⟨1, [.fault 32], [.data [1]], [], false⟩, SOp.conn ⟨2, [], [.fault 104], [], false⟩, SOp.svc, SOp.tx 1 [7], SOp.svc],
     op.quiet = true) := by decide
